@@ -24,12 +24,13 @@ import (
 type routeCase struct {
 	Level    string   `json:"level"` // "tree" (route.Tree.Match) or "flame" (Flame.ServeHTTP)
 	Routes   []string `json:"routes"`
-	Methods  []string `json:"methods,omitempty"`                               // flame level: method of each route
-	Paths    []core.B `json:"paths"`                                           // request paths
-	ReqMeth  []string `json:"req_methods,omitempty"`                           // flame level: method of each request
-	Continue bool     `json:"keep_tree_after_refusal,omitempty"`               // the same tree keeps being used after a refused registration (no rebuild)
-	Warm     bool     `json:"requests_served_between_registrations,omitempty"` // every request of the list is also served (result discarded) after each accepted registration, while the application is still being assembled: what was served earlier must not influence dispatch later
-	RawPath  bool     `json:"set_raw_path,omitempty"`                          // flame level: requests also carry URL.RawPath (a valid, non-canonical encoding of Path, as a parsed request would)
+	Methods  []string `json:"methods,omitempty"`                                     // flame level: method of each route
+	Paths    []core.B `json:"paths"`                                                 // request paths
+	ReqMeth  []string `json:"req_methods,omitempty"`                                 // flame level: method of each request
+	Continue bool     `json:"keep_tree_after_refusal,omitempty"`                     // the same tree keeps being used after a refused registration (no rebuild)
+	BadH     []int    `json:"registered_only_with_a_non_function_handler,omitempty"` // flame level: these routes are only ever attempted with a handler list that contains a non-function; the call fails loudly (recovered) and the route is not part of the application
+	Warm     bool     `json:"requests_served_between_registrations,omitempty"`       // every request of the list is also served (result discarded) after each accepted registration, while the application is still being assembled: what was served earlier must not influence dispatch later
+	RawPath  bool     `json:"set_raw_path,omitempty"`                                // flame level: requests also carry URL.RawPath (a valid, non-canonical encoding of Path, as a parsed request would)
 }
 
 func init() {
@@ -91,9 +92,49 @@ func safeMatch(t route.Tree, path string, h http.Header) (leaf route.Leaf, param
 	return
 }
 
+// genFan: 8-40 static alternatives and a few overlapping dynamic ones at ONE tree position (as leaves, or as
+// subtrees when a tail segment follows), registered in random order. Equal-rank alternatives must keep their
+// registration order however many there are.
+func genFan(rng *rand.Rand) []*rmodel.Route {
+	lit := func(s string) rmodel.Segment { return rmodel.Segment{Elems: []rmodel.Elem{{Lit: s}}} }
+	re := func(n, e string) rmodel.Segment {
+		return rmodel.Segment{Elems: []rmodel.Elem{{Params: []rmodel.Param{{Name: n, Value: e, IsRegex: true, Blanks: 1}}}}}
+	}
+	var prefix, tail []rmodel.Segment
+	if rng.Intn(2) == 0 {
+		prefix = append(prefix, lit("p"))
+	}
+	if rng.Intn(2) == 0 {
+		tail = append(tail, lit("x"))
+	}
+	var alts []rmodel.Segment
+	dyn := []rmodel.Segment{re("w", "[a-z]+"), re("t", "[a-z0-9]+"), re("u", "[a-z0-9.]+"), {Elems: []rmodel.Elem{{Bind: "ph"}}}, {Elems: []rmodel.Elem{{Bind: "ph2"}}}}
+	rng.Shuffle(len(dyn), func(i, j int) { dyn[i], dyn[j] = dyn[j], dyn[i] })
+	alts = append(alts, dyn[:2+rng.Intn(3)]...)
+	for k := 8 + rng.Intn(33); k > 0; k-- {
+		alts = append(alts, lit(fmt.Sprintf("s%d", k)))
+	}
+	if rng.Intn(2) == 0 {
+		rng.Shuffle(len(alts), func(i, j int) { alts[i], alts[j] = alts[j], alts[i] })
+	}
+	var out []*rmodel.Route
+	for _, a := range alts {
+		rt := &rmodel.Route{}
+		rt.Segs = append(rt.Segs, prefix...)
+		rt.Segs = append(rt.Segs, a)
+		rt.Segs = append(rt.Segs, tail...)
+		out = append(out, rt)
+	}
+	return out
+}
+
 func genRouteCase(rng *rand.Rand, flameLevel bool, nPaths int) *routeCase {
 	cfg := gen.Cfg{AllowRoot: true}
 	set := gen.GenSet(rng, cfg, 10)
+	fan := rng.Intn(25) == 0
+	if fan {
+		set = genFan(rng)
+	}
 	c := &routeCase{Level: "tree", Continue: rng.Intn(4) == 0, RawPath: rng.Intn(3) == 0, Warm: rng.Intn(5) == 0}
 	for _, rt := range set {
 		if rng.Intn(3) == 0 {
@@ -123,9 +164,25 @@ func genRouteCase(rng *rand.Rand, flameLevel bool, nPaths int) *routeCase {
 		for range c.Routes {
 			c.Methods = append(c.Methods, meths[rng.Intn(len(meths))])
 		}
+		if rng.Intn(4) == 0 {
+			c.BadH = []int{rng.Intn(len(c.Routes))}
+		}
 	}
 	for i := 0; i < nPaths; i++ {
 		c.Paths = append(c.Paths, core.B(gen.GenPath(rng, set)))
+		if fan && i%2 == 0 {
+			// values that several of the dynamic alternatives admit
+			v := []string{"hello", "abc1", "a.b", "a-b", "s1", "s99", "x"}[rng.Intn(7)]
+			txt := set[0].Render()
+			pre, post := "", ""
+			if strings.HasPrefix(txt, "/p/") {
+				pre = "/p"
+			}
+			if strings.HasSuffix(txt, "/x") {
+				post = "/x"
+			}
+			c.Paths[i] = core.B(pre + "/" + v + post)
+		}
 		if flameLevel {
 			m := meths[rng.Intn(len(meths))]
 			switch rng.Intn(25) {
@@ -164,7 +221,7 @@ func runRouteLoop(r *core.Run, prop string) {
 	if prop == "C01" {
 		runWide(r)
 		r.Gate("distinct_nontrivial", r.NonTrivialCount(), 500)
-		for _, k := range []string{"decided:rank", "decided:registration-order", "decided:fewest-captured", "decided:final-matchall-deferred", "backtrack-needed", "not-found-agree", "flame-level-dispatches", "unknown-method-requests", "kept-tree-after-refusal", "requests-with-raw-path", "isolated-route-oracle", "served-between-registrations"} {
+		for _, k := range []string{"decided:rank", "decided:registration-order", "decided:fewest-captured", "decided:final-matchall-deferred", "backtrack-needed", "not-found-agree", "flame-level-dispatches", "unknown-method-requests", "kept-tree-after-refusal", "requests-with-raw-path", "isolated-route-oracle", "served-between-registrations", "failed-registration-with-non-function-handler"} {
 			r.GateCounter(k, 1)
 		}
 		r.GateCounter("dispatches-compared", int64(nSets)*int64(nPaths)/2)
@@ -672,6 +729,24 @@ func judgeRouteCaseFlame(w *core.W, c *routeCase, prop string) {
 		mr, merr := rmodel.Parse(txt)
 		if merr != nil {
 			// outside the grammar per the reference recogniser: registration must fail; not modelled here
+			continue
+		}
+		isBad := false
+		for _, b := range c.BadH {
+			isBad = isBad || b == i
+		}
+		if isBad {
+			idx := i
+			var pan interface{}
+			func() {
+				defer func() { pan = recover() }()
+				f.Route(method, txt, []flamego.Handler{func() { hit = idx }, 42})
+			}()
+			if pan == nil {
+				w.Count("unjudged:non-function-handler-accepted")
+				return
+			}
+			w.Count("failed-registration-with-non-function-handler")
 			continue
 		}
 		m := models[method]
